@@ -2,6 +2,7 @@
 package c08
 
 import (
+	"bytes"
 	"fmt"
 	"os"
 	"path/filepath"
@@ -44,6 +45,8 @@ type Spec struct {
 	// SigFile: the old build's signature is read back from the signature stream that a previous diff
 	// (nothing -> old build) wrote, as butler does with a downloaded signature, instead of being computed
 	SigFile bool `json:"sig_file,omitempty"`
+	// Again: the same DiffContext writes the patch a second time; the second call must reuse just as much
+	Again bool `json:"again,omitempty"`
 }
 
 func oldContent(i int, f File) h.Content {
@@ -183,9 +186,26 @@ func check(s Spec) h.Result {
 		}
 		dopts = &h.DiffOpts{TargetSig: prev.Sig}
 	}
+	if s.Again {
+		if dopts == nil {
+			dopts = &h.DiffOpts{}
+		}
+		dopts.Again = true
+		cl = append(cl, "differ:same-DiffContext-used-twice")
+	}
 	df, err := h.Diff(od, nd, s.Comp, dopts)
 	if err != nil {
 		return h.Failf("diff failed: %v", err)
+	}
+	if s.Again {
+		if df.Fresh2 != df.Fresh || df.Reused2 != df.Reused {
+			return h.Result{Fail: fmt.Sprintf("second WritePatch on the same DiffContext: %d fresh + %d reused bytes, the first call had %d + %d", df.Fresh2, df.Reused2, df.Fresh, df.Reused), Classes: cl}
+		}
+		if !bytes.Equal(df.Patch, df.Patch2) {
+			return h.Result{Fail: fmt.Sprintf("second WritePatch on the same DiffContext wrote a different patch (%d vs %d bytes)", len(df.Patch2), len(df.Patch)), Classes: cl}
+		}
+		// the oracles below use the first call's counters
+		df.Ctx.FreshBytes, df.Ctx.ReusedBytes = df.Fresh, df.Reused
 	}
 	dp, err := h.DecodePatch(df.Patch)
 	if err != nil {
@@ -374,6 +394,7 @@ var prop = h.Prop[Spec]{
 			}
 		}
 		s.SigFile = rapid.IntRange(0, 3).Draw(t, "old-signature-from-stream") == 0
+		s.Again = rapid.IntRange(0, 4).Draw(t, "same-context-twice") == 0
 		if s.Family != "edits" {
 			// rolling-hash collisions inside the block library: constant blocks (and an empty file), twins
 			for i := range s.Files {
